@@ -70,11 +70,11 @@ STATS = {'feas_s': 0.0, 'feas_q': 0}
 
 class State:
     def __init__(s):
-        s.mem = {}; s.zero = []; s.objs = {}; s.bases = []; s.brk = 0x100000; s.pc = []; s.events = []; s.writes = 0; s.fresh = 0; s.defs = []; s.visits = {}
+        s.mem = {}; s.zero = []; s.objs = {}; s.bases = []; s.brk = 0x100000; s.pc = []; s.events = []; s.writes = 0; s.fresh = 0; s.defs = []; s.visits = {}; s.trace = None
     def fork(s):
         n = State.__new__(State)
         n.mem = dict(s.mem); n.zero = list(s.zero); n.objs = dict(s.objs); n.bases = list(s.bases); n.brk = s.brk
-        n.pc = list(s.pc); n.events = list(s.events); n.writes = s.writes; n.fresh = s.fresh; n.defs = list(s.defs); n.visits = s.visits
+        n.pc = list(s.pc); n.events = list(s.events); n.writes = s.writes; n.fresh = s.fresh; n.defs = list(s.defs); n.visits = s.visits; n.trace = s.trace
         return n
     # ---- objects
     def alloc(s, size, kind='heap'):
@@ -120,7 +120,9 @@ class State:
             s.events.append(('oob', 'store', addr, size)); raise PathEnd('oob', 'store of %d bytes at %#x outside every live object' % (size, addr))
         s._clear(addr, size)
         s.mem[addr] = (size, v); s.writes += 1
+        if s.trace is not None: s.trace.append(('store', addr, size))
     def load(s, addr, size, isfp=False):
+        if s.trace is not None: s.trace.append(('load', addr, size))
         if s.find(addr, size) is None:
             s.events.append(('oob', 'load', addr, size)); raise PathEnd('oob', 'load of %d bytes at %#x outside every live object' % (size, addr))
         c = s.mem.get(addr)
